@@ -27,7 +27,7 @@ def rules_for(prop):
     CODEC = ("rxsci/data/codec.py",)
     FILEIO = ("rxsci/io/file.py",)
     table = {
-        "C01": per_subscription() + [mx.rule_ev1, ag.rule_ag1, ag.rule_ag2, ag.rule_ag3_small, ag.rule_ag3_map_filter, ag.rule_ag3_do_action, scan.rule_sc1, scan.rule_sd2, scan.rule_sd3, tm.rule_tm4, st.rule_st5, seq.rule_fw2],
+        "C01": per_subscription() + [mx.rule_ev1, ag.rule_ag1, ag.rule_ag2, ag.rule_ag3_small, ag.rule_ag3_map_filter, ag.rule_ag3_do_action, scan.rule_sc1, scan.rule_sd2, tm.rule_tm4, st.rule_st5, seq.rule_fw2],
         "C02": st.RULES + [ms.rule_ms, tm.rule_tm5, scan.rule_sd1],
         "C03": mx.RULES + [st.rule_st8, ms.rule_ms],
         "C04": [named(grp.rule_eq1, files=("rxsci/operators/group_by.py", "rxsci/state/memory_store.py", "rxsci/state/store.py",
@@ -36,7 +36,7 @@ def rules_for(prop):
         "C05": [grp.rule_roll, named(grp.rule_fw1, heads=("roll_count",)), scoped(st.rule_st2_3_4, ROLL), scoped(st.rule_st6, ROLL),
                 named(lv.rule_lv, only=("roll_mux._roll.subscribe", "roll_mux._roll_count.subscribe")), ms.rule_ms_states],
         "C08": per_subscription("rxsci/operators/tee_map.py") + [tm.rule_tm123, tm.rule_tm4, tm.rule_tm5, st.rule_st5, mx.rule_mx7],
-        "C09": scan.RULES + per_subscription("rxsci/operators/scan.py", "rxsci/operators/count.py", "rxsci/data/to_list.py", "rxsci/data/to_array.py") + [ms.rule_ms_states_untyped],
+        "C09": scan.RULES + per_subscription("rxsci/operators/scan.py", "rxsci/operators/count.py", "rxsci/data/to_list.py", "rxsci/data/to_array.py") + [ms.rule_ms_states],
         "C10": seq.RULES + per_subscription(*SEQ) + [only_constructs(ag.rule_ag1, SEQ), only_constructs(ag.rule_ag2, SEQ), scan.rule_sc1, named(grp.rule_eq1, files=("rxsci/operators/distinct.py", "rxsci/operators/distinct_until_changed.py",
                                                        "rxsci/operators/first.py", "rxsci/operators/take.py", "rxsci/operators/last.py",
                                                        "rxsci/data/lag.py", "rxsci/data/pad.py", "rxsci/operators/start_with.py",
@@ -97,7 +97,7 @@ EXPLANATION = {
            "shared by all branches; TM-4 join skeleton per mode over the key's slice of n slots; TM-5 table growth to (key[0]+1)*n; ST-5 join table reset; MX-7 lifecycle "
            "de-duplication; AG-3 mux and plain joins agree. Not decided: behaviour of the branches themselves.",
     "C09": _COMMON + "Decided clauses: SD-1 the seed reaches accumulator/terminator/state/output only through seed() or deepcopy(seed), seed() exactly where callable(seed) holds "
-           "(13 scan call sites classified); SD-3 the multiplexed scan keeps its accumulator in an object state (not a typed array chosen from the seed); SD-2 (moot once SD-3 holds) literal seeds; SC-1 fold skeleton per (reduce, terminator); SC-2 count adds exactly 1 per item whatever the item, to_list / to_array append the item itself once and return the collection; AG-3 scan_mux = scan_obs skeletons; PU-1 "
+           "(13 scan call sites classified); SD-2 typed state of literal seeds; SC-1 fold skeleton per (reduce, terminator); SC-2 count adds exactly 1 per item whatever the item, to_list / to_array append the item itself once and return the collection; AG-3 scan_mux = scan_obs skeletons; PU-1 "
            "accumulators do not mutate items or free state and mappers downstream of a scan do not mutate the live accumulator.",
     "C10": _COMMON + "Decided clauses: FW-2 per-path emission multiplicity and bookkeeping of first, take (countdown > 0, minus exactly 1), "
            "last, pad_start/pad_end (one padding item per element of range(size)), start_with, lag(1)/lag(n) and the dispatch between them, distinct; OPT-1 an explicit falsy padding value pads like any other explicit value (only 'is None' means not given); DP-6 batch flag is len(batch) == batch_size on every path, a new list holding only the item is started exactly after a complete batch, and the "
